@@ -1,6 +1,8 @@
 package main
 
 import (
+	"go/ast"
+	"strconv"
 	"go/types"
 	"go/token"
 	"golang.org/x/tools/go/ssa"
@@ -322,15 +324,20 @@ type excGuard struct {
 	fn     string // function (with closures) that must contain ...
 	callee string // ... at least n static calls to this function
 	n      int
+	// alternatively: the string keys of a package-level map literal must be pairwise
+	// prefix-free / suffix-free
+	litPkg, litVar, keyMode string
 }
 
 var c08Guards = map[string][]excGuard{
-	"graph.CloneLinkerGraph$1 append captured dynamicImportEntryPoints":                      {{"graph.CloneLinkerGraph", "sort.Ints", 1}},
-	"linker.(*linkerContext).computeCrossChunkDependencies range imports:map[ast.Ref]bool":   {{"linker.(*linkerContext).sortedCrossChunkImports", "sort.Sort", 2}},
-	"pkg/api.(*apiHandler).broadcastBuildResult range local:map[string]string":               {{"pkg/api.(*apiHandler).broadcastBuildResult", "sort.Strings", 3}},
-	"pkg/api.(*apiHandler).broadcastBuildResult range param newHashes:map[string]string":     {{"pkg/api.(*apiHandler).broadcastBuildResult", "sort.Strings", 3}},
-	"pkg/cli.parseTargets range validEngines:map[string]pkg/api.EngineName":                  {{"pkg/cli.parseTargets", "sort.Strings", 1}},
-	"renamer.(*MinifyRenamer).AccumulateSymbolUseCounts range param symbolUses:map[ast.Ref]js_ast.SymbolUse": {{"linker.(*linkerContext).renameSymbolsInChunk", "sort.Sort", 2}},
+	"graph.CloneLinkerGraph$1 append captured dynamicImportEntryPoints":                      {{fn: "graph.CloneLinkerGraph", callee: "sort.Ints", n: 1}},
+	"linker.(*linkerContext).computeCrossChunkDependencies range imports:map[ast.Ref]bool":   {{fn: "linker.(*linkerContext).sortedCrossChunkImports", callee: "sort.Sort", n: 2}},
+	"pkg/api.(*apiHandler).broadcastBuildResult range local:map[string]string":               {{fn: "pkg/api.(*apiHandler).broadcastBuildResult", callee: "sort.Strings", n: 3}},
+	"pkg/api.(*apiHandler).broadcastBuildResult range param newHashes:map[string]string":     {{fn: "pkg/api.(*apiHandler).broadcastBuildResult", callee: "sort.Strings", n: 3}},
+	"pkg/cli.parseTargets range validEngines:map[string]pkg/api.EngineName":                  {{fn: "pkg/cli.parseTargets", callee: "sort.Strings", n: 1}, {litPkg: modPath + "/pkg/cli", litVar: "validEngines", keyMode: "prefix-free"}},
+	"resolver.(resolverQuery).finalizeImportsExportsResult range rewrittenFileExtensions:map[string][]string": {{litPkg: modPath + "/internal/resolver", litVar: "rewrittenFileExtensions", keyMode: "suffix-free"}},
+	"resolver.(resolverQuery).loadAsFile range rewrittenFileExtensions:map[string][]string":                   {{litPkg: modPath + "/internal/resolver", litVar: "rewrittenFileExtensions", keyMode: "suffix-free"}},
+	"renamer.(*MinifyRenamer).AccumulateSymbolUseCounts range param symbolUses:map[ast.Ref]js_ast.SymbolUse": {{fn: "linker.(*linkerContext).renameSymbolsInChunk", callee: "sort.Sort", n: 2}},
 }
 
 func countCalls(p *Prog, fnName, callee string) int {
@@ -355,6 +362,12 @@ func guardedExc(p *Prog, r *RuleResult, t ExcTable, key string) (bool, string) {
 		return false, ""
 	}
 	for _, g := range c08Guards[key] {
+		if g.litVar != "" {
+			if why := checkLiteralKeys(p, g.litPkg, g.litVar, g.keyMode); why != "" {
+				return false, why
+			}
+			continue
+		}
 		if n := countCalls(p, g.fn, g.callee); n < g.n {
 			return false, fmt.Sprintf("the reviewed reason relies on %s calling %s at least %d time(s), found %d", g.fn, g.callee, g.n, n)
 		}
@@ -771,4 +784,62 @@ func c08SerializedUpdate(p *Prog) *RuleResult {
 		r.Fail("C08/R7 anchor ExclusiveMangleCacheUpdate", "-", "no closure is stored into Options.ExclusiveMangleCacheUpdate (rule cannot be decided)")
 	}
 	return r
+}
+
+// checkLiteralKeys verifies that the string keys of a package-level map literal are pairwise
+// prefix-free or suffix-free; returns "" when they are.
+func checkLiteralKeys(p *Prog, pkgPath, varName, mode string) string {
+	pk := p.ByPath[pkgPath]
+	if pk == nil {
+		return "package " + pkgPath + " not loaded"
+	}
+	var keys []string
+	found := false
+	for _, f := range pk.Syntax {
+		for _, d := range f.Decls {
+			gd, ok := d.(*ast.GenDecl)
+			if !ok || gd.Tok != token.VAR {
+				continue
+			}
+			for _, sp := range gd.Specs {
+				vs := sp.(*ast.ValueSpec)
+				for i, n := range vs.Names {
+					if n.Name != varName || i >= len(vs.Values) {
+						continue
+					}
+					cl, ok := vs.Values[i].(*ast.CompositeLit)
+					if !ok {
+						continue
+					}
+					found = true
+					for _, el := range cl.Elts {
+						if kv, ok := el.(*ast.KeyValueExpr); ok {
+							if bl, ok := kv.Key.(*ast.BasicLit); ok {
+								if s, err := strconv.Unquote(bl.Value); err == nil {
+									keys = append(keys, s)
+								}
+							}
+						}
+					}
+				}
+			}
+		}
+	}
+	if !found || len(keys) < 2 {
+		return "map literal " + varName + " not found in " + shortPkg(pkgPath)
+	}
+	for i, a := range keys {
+		for j, b := range keys {
+			if i == j {
+				continue
+			}
+			if mode == "prefix-free" && strings.HasPrefix(a, b) {
+				return fmt.Sprintf("the reviewed reason relies on the keys of %s being prefix-free, but %q is a prefix of %q", varName, b, a)
+			}
+			if mode == "suffix-free" && strings.HasSuffix(a, b) {
+				return fmt.Sprintf("the reviewed reason relies on the keys of %s being suffix-free, but %q is a suffix of %q", varName, b, a)
+			}
+		}
+	}
+	return ""
 }
